@@ -1,4 +1,5 @@
-"""Per-property configuration of the check driver (tools/check.py)."""
+"""Per-property configuration of the check driver (tools/check.py): one JSON file per property in tools/props.d/."""
+import json, os
 
 COMMON_TRUSTED = [
     "Coq 8.16.1 kernel (coqc; vm_compute is used, native_compute is not)",
@@ -7,38 +8,10 @@ COMMON_TRUSTED = [
     "correspondence harness: go/harness generators and canonical printers, verif-tagged hook file in /repo (add-only wrappers), ocaml/driver.ml, line diff",
 ]
 
-PROPS = {
-    "C10": {
-        "props_file": "Props/C10.v",
-        "rule": "cases: all 256 table entries; all messages of length 0..1 (0..2 in thorough); (top byte, input byte) pairs over random 24-bit low parts (every 17th pair in quick, all 65536 in thorough) plus five edge states x 256 bytes; random messages <= 4 KiB each with its split points. A case is non-trivial when it feeds at least one byte (or reads a table entry); distinct = distinct case text (sha256).",
-        "explanation": "Theorems: the generated table equals 8 reference bit steps per entry; the generated byte step equals the reference for all 2^32 x 2^8 pairs (XOR-homomorphism basis argument); whole messages, chunking and residue by induction. computeCRC32/updateCRC32/tableCRC32/crc32Polynomial are re-translated from crc32.go and crc32_table.go on every run, so the theorems are re-checked against the current source; the hook exports additionally run the compiled Go code against the extracted translation.",
-        "trusted": ["the translation of updateCRC32's range loop into fold_left (checked on every run by the correspondence cases)"],
-        "assumptions": ["uint32 arithmetic of Go is modelled as Z with explicit mod 2^32"],
-        "level_text": "Machine-checked theorems (Coq) that the checksum code, re-translated from crc32.go and crc32_table.go on every run, equals a bitwise CRC-32/MPEG-2 reference for every register state, byte and byte string, that chunked and one-pass computation agree, and that message+checksum has residue 0. Unbounded: all 2^40 single steps via an XOR-homomorphism argument, messages by induction.",
-        "level_note": "Trusted: Coq kernel (vm_compute used for three finite sweeps: 256 table entries, 65536 table XOR pairs, 40+32 basis vectors), the Go-AST-to-Gallina translator (its output is also run against the compiled Go code through verif-tagged exports on ~21k cases per quick run), uint32 modelled as Z mod 2^32. All six theorems are closed under the global context.",
-        "technique": "Coq proof over source-regenerated definitions + differential correspondence",
-    },
-
-    "C11": {
-        "props_file": "Props/C11.v",
-        "rule": "cases: packets with every flag/AFC/scrambling combination on random PIDs and counters (all 8192 PIDs in thorough); well-formed packets from a generator covering AF length 0..183, every subset of PCR/OPCR/splice/private data/extension(LTW, piecewise, seamless splice), parsed from an independent reference encoding, written, and re-emitted; adaptation_field_length 0..183 over random bodies; arbitrary blocks of 0..210 bytes; invalid packets for the writer (oversize, nil behind flags, odd targets); PCR/OPCR/DTS at every single-bit value. Non-trivial = the call succeeded; distinct = distinct case text.",
-        "explanation": "Model/Packet.v and Model/Clock.v mirror parsePacket/writePacket and friends; calcPacketAdaptationField(Extension)Length, payloadOffset and newStuffingAdaptationField are re-translated from packet.go on every run. The implementation-side oracle compares writePacket with an independent ISO 13818-1 encoder, parses that encoding back, and demands byte-identical re-emission of conformant packets.",
-        "trusted": ["hand-written model of packet.go (checked by correspondence on every run)", "astikit BytesIterator/BitsWriter as modelled in Base/Iter.v and Base/Wr.v"],
-        "assumptions": ["bit fields read with masks and shifts in Go are modelled as bit-field extraction at the same positions"],
-        "level_text": "Machine-checked theorems (Coq) about an executable model of packet.go: the header and PCR/PTS layouts are read back from their encodings for all field values, and every packet the writer accepts is exactly the target size. The model is run against the implementation (parsePacket, writePacket, re-emission) on thousands of generated packets per run; length calculators are re-translated from the source.",
-        "level_note": "Partial: the full parse(write p) = p theorem for the adaptation field with all optional parts is not closed yet; it rests on correspondence and on the reference-encoder oracle. Trusted: Coq kernel, translator, hand-written model, extraction (ExtrOcamlBasic), harness.",
-        "technique": "Coq proof over a hand-written executable model + differential correspondence + reference-encoder oracle",
-    },
-    "C15": {
-        "props_file": "Props/C15.v",
-        "rule": "cases (through the verif hooks of dvb.go): parseDVBTime on all 65536 MJD words, on all 86400 BCD times of day, on all 256 values of each time byte, on random raw 5-byte words, on (day, time) pairs and an edge grid, on inputs of length 0..7; parseDVBDurationMinutes on all 2^16 raw words; parseDVBDurationSeconds on BCD strings (every 89th of the 10^6 in quick, all in thorough), all 256 values per byte, random raw words; writeDVBTime on all 50457 days of 1900-03-01..2038-04-22 (one time of day each), on all 86400 seconds of one day (8 days in thorough), on a (day, second) grid, on years 1..9999 and at the range edges; write-then-parse round trips; writeDVBDurationMinutes on all 6000 whole minutes below 100 h; writeDVBDurationSeconds on whole seconds below 100 h (every 41st in quick, all 360000 in thorough), sub-second durations below 256 h, negative and oversized durations; both byte functions on all 256 values. Go-side complete sweeps against the independent reference (failures would be emitted as cases): 2^24 raw time words (every 5th in quick), all 10^6 BCD durations, all 360000 whole-second durations, every day x 8 (1440 in thorough) seconds. Non-trivial = the call succeeded; distinct = distinct case text.",
-        "explanation": "Model/Dvb.v holds two models of dvb.go: an integer one (extracted and run against the implementation on every case) and module DvbFloat, the same expressions over IEEE-754 binary64 (Coq's SpecFloat 53/1024, pure Gallina) in the order of the Go source, with the decimal literals as correctly rounded quotients whose bit patterns are proved equal to Go's. Theorems show by complete enumeration inside Coq that the two agree on all 65536 MJD words, on all encoder arguments for years -3000..12000 and on all whole-second durations below 100 h, and that on 15079..65535 both equal an independent proleptic Gregorian calendar (itself checked against the day-by-day leap-year rule and the Annex C formulas over the rationals up to 2100-02-28). parseDVBDurationByte and dvbDurationByteRepresentation are re-translated from dvb.go on every run, so the BCD theorems are re-checked against the current source. The implementation-side oracle compares every decode/encode in range with its own calendar arithmetic and digit-wise BCD.",
-        "trusted": ["hand-written model of dvb.go (checked by correspondence on every run: all 65536 MJD words, all 86400 times of day, all 50457 days)", "package time's Date / Year-Month-Day / Truncate / Duration.Hours-Minutes-Seconds as modelled in Model/Dvb.v (exercised through the same cases)", "Go float64 arithmetic is IEEE-754 binary64 round-to-nearest-even without fusion (amd64), modelled by Coq's SpecFloat; uint8(float) keeps the low 8 bits of the truncated value (implementation-defined in Go outside 0..255, observed on this platform)", "astikit BytesIterator/BitsWriter as modelled in Base/Iter.v and Base/Wr.v"],
-        "assumptions": ["encoding is stated for UTC times with whole seconds (DESIGN.md S4)", "time.Time is modelled as Unix seconds, time.Duration as nanoseconds"],
-        "level_text": "Machine-checked theorems (Coq, closed under the global context) about an executable model of dvb.go: for all 50457 MJD values 15079..65535 the float64 date computation yields the proleptic Gregorian calendar date, every BCD time of day decodes to hh*3600+mm*60+ss, date and time compose by addition, every second of the range encodes to exactly the five reference bytes and decodes back; all 10^4/10^6 BCD durations decode exactly, all whole-second durations below 100 h encode exactly; all 2^40 raw five-byte words and 2^24/2^16 duration words decode to the digit-wise value without error, no iterator state panics. Finite statements are closed by complete enumeration in Coq (vm_compute) with their bounds in the statement. The integer model is run against the implementation on ~400k cases per quick run including the complete sweeps.",
-        "level_note": "No theorem is partial. The float64 model uses Coq's SpecFloat (the Gallina specification of binary64), not primitive floats, so no float primitive is in the trusted base; what is trusted is that Go's float64 operations are IEEE-754 round-to-nearest-even and the hand-written transcription of the expressions of dvb.go (tied to the implementation by the exhaustive correspondence of the integer model plus the agreement theorems). The decimal literals of dvb.go (15078.2, 14956.1, 30.6001, 365.25) are hand-copied, not re-translated; a change to them is caught by the correspondence sweep and the oracle. Encoding is stated for UTC and whole seconds (S4). Below MJD 15079 the code does not return the calendar date (e.g. MJD 15078 -> 1900-03-03); that is outside the property's range and is modelled as the code behaves.",
-        "technique": "Coq proof by complete enumeration over a float-faithful executable model + exhaustive differential correspondence + reference-calendar oracle",
-    },
-}
+_D = os.path.join(os.path.dirname(os.path.abspath(__file__)), "props.d")
+PROPS = {}
+for _f in sorted(os.listdir(_D)):
+    if _f.endswith(".json"):
+        PROPS[_f[:-5]] = json.load(open(os.path.join(_D, _f)))
 
 NOT_APPLICABLE = {}
